@@ -113,6 +113,10 @@ type Program struct {
 	Globals map[string]Recipe `json:"globals,omitempty"` // Set globals
 	Data    *Recipe           `json:"data,omitempty"`    // context
 	Escaper string            `json:"escaper,omitempty"` // "" default HTML | "nil" | "custom"
+	// BrokenFirst > 0: before the observed Execute the same template is executed once, on the same goroutine,
+	// into a destination that accepts this many bytes and then fails (a connection closed mid-response).
+	// What that execution reports is not judged; the observed one must be unaffected by it.
+	BrokenFirst int `json:"broken_first,omitempty"`
 }
 
 // ---- constructors used by generators ----
